@@ -319,7 +319,12 @@ fn cmd_read(c: &Value) -> Value {
     let mut out = json!({});
     let mark = alloc_mark();
     let flen = file.len();
-    let mut m = Meter::new(Cursor::new(file));
+    let base = u(c, "base").unwrap_or(0);
+    let len = if c.get("len").is_some() { len } else { base + flen as u64 };
+    let mut m = Meter::new(Based { base, cur: Cursor::new(file) });
+    if base > 0 {
+        let _ = m.inner.seek(SeekFrom::Start(base));
+    }
     meter_opts(&mut m, c);
     let opened = guard(|| Mp4Reader::read_header(&mut m, len));
     out["open"] = json!(cls(&opened));
